@@ -159,8 +159,37 @@ func ruleC17(prog *Program, rep *Report) {
 		fd, _ := prog.FuncDecl(h)
 		top, nested := countCalls(fd, inc)
 		key := "jp.MatchHandler." + h.Name() + ":inc"
-		if top == 1 && nested == 0 {
-			rep.Discharge("T-inc", key, prog.Pos(fd.Pos()), "exactly one unconditional index increment")
+		// a return that precedes the increment leaves the function without it
+		earlyReturn := token.NoPos
+		if top == 1 {
+			var incPos token.Pos
+			for _, st := range fd.Body.List {
+				if es, ok := st.(*ast.ExprStmt); ok {
+					if call, ok := es.X.(*ast.CallExpr); ok {
+						if sel, ok := call.Fun.(*ast.SelectorExpr); ok {
+							if sl := info.Selections[sel]; sl != nil && sl.Obj() == inc {
+								incPos = st.Pos()
+							}
+						}
+					}
+				}
+			}
+			ast.Inspect(fd.Body, func(n ast.Node) bool {
+				switch x := n.(type) {
+				case *ast.FuncLit:
+					return false
+				case *ast.ReturnStmt:
+					if incPos.IsValid() && x.Pos() < incPos && !earlyReturn.IsValid() {
+						earlyReturn = x.Pos()
+					}
+				}
+				return true
+			})
+		}
+		if earlyReturn.IsValid() {
+			rep.Violate(Finding{Rule: "T-inc", Key: key + ":return-before-increment", Pos: prog.Pos(earlyReturn), Msg: h.Name() + " can return before it advances the trailing array index: the elements after a container that took this path are reported one index too low"})
+		} else if top == 1 && nested == 0 {
+			rep.Discharge("T-inc", key, prog.Pos(fd.Pos()), "exactly one unconditional index increment, no return before it")
 		} else {
 			rep.Violate(Finding{Rule: "T-inc", Key: key, Pos: prog.Pos(fd.Pos()), Msg: fmt.Sprintf("%s advances the trailing array index %d time(s) unconditionally and %d time(s) conditionally (want exactly once per event): array indexes in reported paths drift", h.Name(), top, nested)})
 		}
